@@ -35,7 +35,6 @@ func TestMain(m *testing.M) {
 			"Non-trivial = history contains a connected->finite transition followed by GC, or a multi-address delete, or a record replacement, or a reopen, "+
 			"or an expiry of all addresses of a peer holding a record; distinct = distinct (rule, argument) sequence.",
 		"clock steps are whole seconds (the datastore record stores Unix seconds)",
-		"batches never name the same address twice",
 		"the datastore double applies every write atomically; a crash is modelled as close/reopen",
 	)
 	hx.Main(m)
@@ -90,6 +89,9 @@ func formAddr(ai, form, p int) ma.Multiaddr {
 type mAddr struct {
 	ttl    time.Duration
 	expiry time.Time
+	// pinned: the address was last written by an Add/Set naming it with a connected TTL, so it
+	// is certainly stored (connected addresses bypass the per-peer cap and are never evicted)
+	pinned bool
 }
 
 type mRec struct {
@@ -155,8 +157,11 @@ func (m *model) add(now time.Time, p int, ais []int, forms []int, ttl time.Durat
 			if exp.After(a.expiry) {
 				a.expiry = exp
 			}
+			if isConnected(ttl) {
+				a.pinned = true
+			}
 		} else {
-			m.peers[p].addrs[ai] = &mAddr{ttl, exp}
+			m.peers[p].addrs[ai] = &mAddr{ttl, exp, isConnected(ttl)}
 		}
 	}
 }
@@ -170,7 +175,7 @@ func (m *model) set(now time.Time, p int, ais []int, forms []int, ttl time.Durat
 			delete(m.peers[p].addrs, ai)
 			continue
 		}
-		m.peers[p].addrs[ai] = &mAddr{ttl, now.Add(ttl)}
+		m.peers[p].addrs[ai] = &mAddr{ttl, now.Add(ttl), isConnected(ttl)}
 	}
 }
 
@@ -187,6 +192,7 @@ func (m *model) update(now time.Time, p int, old, nw time.Duration) {
 			continue
 		}
 		a.ttl, a.expiry = nw, now.Add(nw)
+		a.pinned = a.pinned && isConnected(nw)
 	}
 }
 
@@ -325,6 +331,14 @@ func drawBatch(rt *rapid.T, p int) (ais, forms []int, addrs []ma.Multiaddr) {
 		forms = append(forms, form)
 		addrs = append(addrs, formAddr(ai, form, p))
 	}
+	// occasionally name one address twice in the batch (same or another textual form)
+	if rapid.IntRange(0, 5).Draw(rt, "dup") == 0 {
+		k := rapid.IntRange(0, n-1).Draw(rt, "dupOf")
+		form := rapid.SampledFrom([]int{0, 1}).Draw(rt, "dupForm")
+		ais = append(ais, ais[k])
+		forms = append(forms, form)
+		addrs = append(addrs, formAddr(ais[k], form, p))
+	}
 	return
 }
 
@@ -335,6 +349,7 @@ func drawTTL(rt *rapid.T, label string) time.Duration {
 type config struct {
 	cache     uint
 	lookahead bool
+	capN      int // per-peer cap on unconnected addresses; 0 = disabled (exact oracle)
 }
 
 func TestBooksAgreeWithModel(t *testing.T) {
@@ -343,16 +358,17 @@ func TestBooksAgreeWithModel(t *testing.T) {
 		cfg := config{
 			cache:     uint(rapid.SampledFrom([]int{0, 8}).Draw(rt, "cache")),
 			lookahead: rapid.Bool().Draw(rt, "lookahead"),
+			capN:      0, // caps are covered by TestCapEviction (exact eviction model)
 		}
 		var trace []string
 		var flags struct{ connToFiniteThenGC, multiDelete, recReplace, reopen, recDied, sawConnToFinite bool }
 		hx.Bubble(t, rt, func() {
 			b := &books{store: dssync.MutexWrap(ds.NewMapDatastore())}
-			b.dsOpts = pstoreds.Options{CacheSize: cfg.cache, MaxProtocols: 1024, MaxAddrsPerPeer: 0, GCPurgeInterval: time.Minute, GCInitialDelay: 0}
+			b.dsOpts = pstoreds.Options{CacheSize: cfg.cache, MaxProtocols: 1024, MaxAddrsPerPeer: cfg.capN, GCPurgeInterval: time.Minute, GCInitialDelay: 0}
 			if cfg.lookahead {
 				b.dsOpts.GCLookaheadInterval = 2 * time.Minute
 			}
-			b.mem = pstoremem.NewAddrBook(pstoremem.WithMaxAddressesPerPeer(0))
+			b.mem = pstoremem.NewAddrBook(pstoremem.WithMaxAddressesPerPeer(cfg.capN))
 			b.openDS(rt)
 			defer func() { b.mem.Close(); b.dsb.Close() }()
 			m := newModel()
@@ -366,6 +382,50 @@ func TestBooksAgreeWithModel(t *testing.T) {
 				now := time.Now()
 				if m.prune(now) {
 					flags.recDied = true
+				}
+				if cfg.capN > 0 {
+					// caps enabled: eviction victims tie on expiry and the statement does not rank them, so each
+					// book is judged against invariants only: returned addresses are live in the uncapped model,
+					// addresses held by a live connection are never evicted, at most capN others are kept, and a
+					// returned record is the model's current one
+					for p := 0; p < nPeers; p++ {
+						live := map[string]*mAddr{}
+						for ai, a := range m.peers[p].addrs {
+							live[baseAddrs[ai].String()] = a
+						}
+						for which, got := range map[string][]string{"memory": addrSet(b.mem.Addrs(pid(p))), "datastore": addrSet(b.dsb.Addrs(pid(p)))} {
+							have := map[string]bool{}
+							unconnected := 0
+							for _, a := range got {
+								have[a] = true
+								la, ok := live[a]
+								if !ok {
+									rt.Fatalf("%s: %s book (cap %d) returns %s for peer%d, which is not live in the model %v\ntrace: %s", when, which, cfg.capN, a, p, m.live(p), strings.Join(trace, "; "))
+								}
+								if !isConnected(la.ttl) {
+									unconnected++
+								}
+							}
+							// (the cap is enforced when new addresses are inserted, not when connected addresses
+							// are downgraded, so the number kept is not asserted)
+							_ = unconnected
+							for a, la := range live {
+								if la.pinned && isConnected(la.ttl) && !have[a] {
+									rt.Fatalf("%s: %s book (cap %d) lost the connected address %s of peer%d\ntrace: %s", when, which, cfg.capN, a, p, strings.Join(trace, "; "))
+								}
+							}
+						}
+						wantRec := ""
+						if m.peers[p].rec != nil {
+							wantRec = m.peers[p].rec.id
+						}
+						for which, got := range map[string]string{"memory": recID(b.mem.GetPeerRecord(pid(p))), "datastore": recID(b.dsb.GetPeerRecord(pid(p)))} {
+							if got != "" && got != wantRec {
+								rt.Fatalf("%s: %s book (cap %d) GetPeerRecord(peer%d) = %q, model %q\ntrace: %s", when, which, cfg.capN, p, got, wantRec, strings.Join(trace, "; "))
+							}
+						}
+					}
+					return
 				}
 				for p := 0; p < nPeers; p++ {
 					want := m.live(p)
@@ -404,7 +464,7 @@ func TestBooksAgreeWithModel(t *testing.T) {
 					}
 					for p := 0; p < nPeers; p++ {
 						live := len(m.peers[p].addrs) > 0
-						if live && !got[pid(p)] {
+						if live && !got[pid(p)] && cfg.capN == 0 {
 							rt.Fatalf("%s: %s book PeersWithAddrs omits peer%d which has live addresses %v\ntrace: %s", when, which, p, m.live(p), strings.Join(trace, "; "))
 						}
 						if !live && got[pid(p)] && (exact || !now.Before(m.graceUntil[p])) {
@@ -588,7 +648,7 @@ func TestBooksAgreeWithModel(t *testing.T) {
 			}
 		}
 		sort.Strings(labels)
-		labels = append(labels, fmt.Sprintf("cache=%d", cfg.cache), fmt.Sprintf("lookahead=%v", cfg.lookahead))
+		labels = append(labels, fmt.Sprintf("cache=%d", cfg.cache), fmt.Sprintf("lookahead=%v", cfg.lookahead), fmt.Sprintf("cap=%d", cfg.capN))
 		stats.Case(name, strings.Join(trace, ";"), nontrivial, labels...)
 		if stats.WantSample(name) {
 			stats.Sample(name, map[string]any{"config": fmt.Sprintf("%+v", cfg), "history": trace})
